@@ -842,6 +842,9 @@ func CosimReplay(r *Replay) (string, string) {
 func DebugGen(prop string, seed, run uint64) string {
 	runSeed := rng.RunSeed(seed, prop, run)
 	gr := rng.New(rng.Sub(runSeed, "gen"))
+	if prop == "C17" || prop == "C18" { // the full-feature generator, pretty layout
+		return filegen.Join(filegen.Gen(gr, filegen.DrawConfig(gr)).Tokens(nil), 1, rng.New(1).U64)
+	}
 	cfg := gen.DrawConfig(gr, gen.Profile(prop), false)
 	var f *model.File
 	if run%64 == 17 {
